@@ -1708,6 +1708,51 @@ void Builder::setData(const BuildData& bd)
     }
 }
 
+bool Builder::setDataAliased(int how, const BuildData& bd)
+{
+    if (!selfValid())
+        return false;
+    preCall();
+    switch (d->cls)
+    {
+        case wire::K_CAN:
+        case wire::K_CANFD:
+        {
+            auto& o = static_cast<CanPayloadBase&>(*d->obj);
+            const uint8_t n = o.getDataLength();
+            o.setData(o.getData(), how ? static_cast<uint8_t>(bd.data.size() <= n ? bd.data.size() : n) : n);
+            return true;
+        }
+        case wire::K_LIN:
+        {
+            auto& o = static_cast<LinPayload&>(*d->obj);
+            const uint8_t n = o.getDataLength();
+            o.setData(o.getData(), how ? static_cast<uint8_t>(bd.data.size() <= n ? bd.data.size() : n) : n);
+            return true;
+        }
+        case wire::K_ETH:
+        {
+            auto& o = static_cast<EthernetPayload&>(*d->obj);
+            const uint16_t n = o.getDataLength();
+            o.setData(o.getData(), how ? static_cast<uint16_t>(bd.data.size() <= n ? bd.data.size() : n) : n);
+            return true;
+        }
+        case wire::K_IFSTAT:
+        {
+            auto& o = static_cast<InterfacePayload&>(*d->obj);
+            const uint16_t n = o.getStreamIdsCount();
+            const uint16_t v = o.getVendorDataLength();
+            if (how == 0)
+                o.setData(o.getStreamIds(), n, o.getVendorData(), v);
+            else
+                o.setData(o.getStreamIds(), n, bd.vendor.data(), static_cast<uint16_t>(bd.vendor.size() <= v ? bd.vendor.size() : v));
+            return true;
+        }
+        default:
+            return false;
+    }
+}
+
 void Builder::assignFrom(const Builder& other)
 {
     preCall();
